@@ -33,6 +33,7 @@ type wireCase struct {
 	PerBlock []int         `json:"per_block"` // records per file block; the remainder goes to a last block
 	Codec    string        `json:"codec"`     // null, deflate, snappy, "" = no avro.codec entry
 	Sync     []byte        `json:"sync"`
+	Reader   int           `json:"reader,omitempty"` // see makeReader
 }
 
 func init() { registerReplay("c03", func(c wireCase) error { _, _, err := runC03(c); return err }) }
@@ -165,8 +166,12 @@ type delivered struct {
 }
 
 func readWire(file []byte, typ reflect.Type) ([]reflect.Value, error) {
+	return readWireFrom(bytes.NewReader(file), typ)
+}
+
+func readWireFrom(rd avro.Reader, typ reflect.Type) ([]reflect.Value, error) {
 	var got []reflect.Value
-	err := avro.ReadFile(bytes.NewReader(file), reflect.New(typ).Elem().Interface(), func(val unsafe.Pointer, rb *avro.ResourceBank) error {
+	err := avro.ReadFile(rd, reflect.New(typ).Elem().Interface(), func(val unsafe.Pointer, rb *avro.ResourceBank) error {
 		cp := reflect.New(typ).Elem()
 		cp.Set(reflect.NewAt(typ, val).Elem())
 		got = append(got, cp)
@@ -182,7 +187,7 @@ func runC03(c wireCase) (bool, []string, error) {
 	}
 	nt, labels := wireLabels(c, st, len(lay.Blocks))
 	typ := spec.Build(c.Target)
-	got, rerr := readWire(file, typ)
+	got, rerr := readWireFrom(makeReader(c.Reader, file), typ)
 	firstMisfit := -1
 	for i, d := range c.Datums {
 		if !datumFits(c.Schema, d, c.Target) {
@@ -233,6 +238,7 @@ func drawWireCase(t *rapid.T, o *gen.WireOpts) wireCase {
 	}
 	c.Codec = rapid.SampledFrom([]string{"null", "deflate", "snappy", "null", "deflate", "snappy", ""}).Draw(t, "codec")
 	c.Sync = rapid.SliceOfN(rapid.Byte(), 16, 16).Draw(t, "sync")
+	c.Reader = []int{0, 0, 0, 1, 2, 5}[gen.Uniform(t, "reader", 6)]
 	return c
 }
 
